@@ -53,6 +53,9 @@ func Print(g *Grammar, o PrintOpts) string {
 		fmt.Fprintf(&sb, "{\npackage %s\n", o.Pkg)
 		if !o.Plain && g.hasBlocks() {
 			sb.WriteString("\nimport \"vb/mon\"\n")
+			if g.IndirectState && g.UsesState {
+				sb.WriteString("\nfunc verifSt(x *current) map[string]any { return x.state }\n")
+			}
 		}
 		sb.WriteString("}\n\n")
 	}
@@ -216,6 +219,9 @@ func (p *printer) block(e *Expr) {
 	st := "nil"
 	if p.g.UsesState {
 		st = c + ".state"
+		if p.g.IndirectState {
+			st = "verifSt(" + c + ")"
+		}
 	}
 	sp := b.Spec
 	fmt.Fprintf(p.sb, "{ /*id%d*/ return mon.%s(%s.globalStore, %s, %d, mon.Spec{R: %d, E: %d, P: %d, B: %d, S: %d, Scr: %t, G: %t}, %s.text, %s.pos.line, %s.pos.col, %s.pos.offset",
